@@ -346,7 +346,7 @@ def rule_phis_and_locals(ctx):
             f = fn
     if f is None:
         ctx.missing(R, "Statement::insert_ssa_variables")
-    else:
+    elif not eval_written_variable(ctx, R, f):
         ms = [m for m in walk(f["body"]) if m["k"] == "Match" and render(strip(m["scrut"])) == "self"]
         arm = [a for a in ms[0]["arms"] if "Substitution" in render(a["pat"])] if ms else []
         if len(arm) != 1:
@@ -388,6 +388,80 @@ def rule_phis_and_locals(ctx):
                 rt = render(strip(a["r"])).replace(" ", "")
                 rhs = any(rt == "%s.with_version(%s)" % (nm, v_) for v_ in vb) or (not vb and rt == "%s.with_version(version)" % nm)
                 ctx.check(R, "visit_expression/%s/write%d/only-locals-current-version" % (variant, i + 1), ok and cur and rhs, "versioned under %s" % cs, site(SI, a))
+
+
+def eval_written_variable(ctx, R, f):
+    """`Statement::insert_ssa_variables` on an assignment, evaluated for a local and for a non-local target: the
+    right-hand side is renamed exactly once and before a new version is taken (it reads the previous one); a local
+    target gets exactly one fresh version, which is the one written into the statement; any other target is left
+    alone and takes no version.  Returns True when decided."""
+    import passeval
+    from finfun import NONE, S, Unsupported
+    from passeval import O, Panic, V
+
+    try:
+        w = passeval.PassWorld([IR, SI], SI)
+    except Exception:  # noqa: BLE001
+        return False
+    w.lenient_opaque = True
+    w.method_stubs = {("Statement", "propagate_types"): lambda r, a: ("T", ()), ("Statement", "cache_variable_use"): lambda r, a: ("T", ())}
+    bad = {}
+    n = 0
+    for local in (True, False):
+        events = []
+        made = {}
+
+        def with_version(v, made=made):
+            o_ = ("O", "target@%r" % (v,), (("version", S("Some", v)),))
+            made[id(o_)] = v
+            return o_
+
+        target = ("O", "target", (("with_version", ("PY", with_version)), ("version", NONE), ("clone", ("PY", lambda: target_holder[0]))))
+        target_holder = [target]
+        rhe = O("right-hand-side")
+        w.stubs = {"visit_expression": lambda args, events=events: (events.append(("visit", args[0])), S("Ok", ("T", ())))[1]}
+
+        def next_version(nm, events=events):
+            events.append(("next", nm))
+            return 7
+
+        env = ("O", "environment", (("is_local", ("PY", lambda nm, local=local: local)), ("get_next_version", ("PY", next_version)), ("get_current_version", ("PY", lambda nm: S("Some", 6))), ("declarations", O("declarations"))))
+        stmt = V("Statement", "Substitution", meta=O("meta"), var=target, op=O("op"), rhe=rhe)
+        try:
+            res = w.call_fn(f, [stmt, env])
+        except Unsupported as u:
+            ctx.note("Statement::insert_ssa_variables/Substitution is outside the evaluator's subset (%s): shape obligations apply" % u)
+            return False
+        except Panic as p_:
+            bad.setdefault("shape", "%s target: panics (%s)" % ("local" if local else "non-local", p_))
+            continue
+        finally:
+            w.stubs = {}
+        n += 1
+        tag = "local target" if local else "signal / component target"
+        visits = [i for i, e_ in enumerate(events) if e_[0] == "visit"]
+        nexts = [i for i, e_ in enumerate(events) if e_[0] == "next"]
+        if not (isinstance(res, tuple) and len(res) > 2 and res[1] == "Ok"):
+            bad.setdefault("shape", "%s: returns %r" % (tag, res))
+        if len(visits) != 1 or events[visits[0]][1] is not rhe:
+            bad.setdefault("shape", "%s: the right-hand side is renamed %d time(s)" % (tag, len(visits)))
+        after = stmt[3]["var"]
+        if local:
+            if len(nexts) != 1 or events[nexts[0]][1] is not target:
+                bad.setdefault("fresh", "%s: %d fresh version(s) taken" % (tag, len(nexts)))
+            elif visits and visits[0] > nexts[0]:
+                bad.setdefault("order", "%s: the new version is created before the right-hand side - which reads the previous one - is renamed" % tag)
+            if made.get(id(after)) != 7:
+                bad.setdefault("fresh", "%s: the statement now writes %s, expected the fresh version" % (tag, after[1] if isinstance(after, tuple) else after))
+        else:
+            if nexts or after is not target:
+                bad.setdefault("locals", "%s: %d version(s) taken, the statement now writes %s" % (tag, len(nexts), after[1] if isinstance(after, tuple) else after))
+    arm_site = site(SI, f)
+    ctx.check(R, "Statement::insert_ssa_variables/Substitution/shape", "shape" not in bad and n == 2, bad.get("shape", "the right-hand side is renamed once; the call succeeds"), arm_site)
+    ctx.check(R, "Statement::insert_ssa_variables/Substitution/only-locals-versioned", "locals" not in bad, bad.get("locals", "a signal or component target takes no version and is left as written"), arm_site)
+    ctx.check(R, "Statement::insert_ssa_variables/Substitution/rhs-renamed-before-the-write", "order" not in bad, bad.get("order", "the right-hand side is renamed before the new version is created"), arm_site)
+    ctx.check(R, "Statement::insert_ssa_variables/Substitution/fresh-version", "fresh" not in bad, bad.get("fresh", "a local target gets one fresh version, and that version is written"), arm_site)
+    return True
 
 
 def eval_phi_argument(ctx, R, f):
@@ -767,6 +841,115 @@ def rule_declarations(ctx):
             ctx.check(R, "update_declarations/signals-and-components-unversioned", arg.startswith("&Declaration::new(name,"), arg[:100], site(SI, a))
 
 
+def rule_environment(ctx, R="C14.8"):
+    """The version environment by evaluation: its methods are run, on top of a reference scoped map, through sequences
+    of `enter scope / leave scope / assign / read`; what a read sees must be the version assigned last in the current
+    or an enclosing scope - never one assigned in a scope that has been left (a sibling branch) - and a fresh version
+    must be one more than every version handed out for that name anywhere."""
+    ctx.rule(R, "the version a read sees is the one assigned last in the current or an enclosing scope (None when there is none: versions handed out in a scope that has been left, e.g. a sibling branch, are not visible), and a new version is one more than every version handed out for the name anywhere")
+    import passeval
+    from finfun import NONE, S, Unsupported
+    from passeval import O, Panic
+
+    try:
+        w = passeval.PassWorld([SI], SI)
+    except Exception as e:  # noqa: BLE001
+        return ctx.missing(R, "environment evaluator", str(e))
+    w.lenient_opaque = True
+    need = ["get_current_version", "get_next_version", "get_version_range", "add_variable_scope", "remove_variable_scope"]
+    if any(("Environment", m_) not in w.methods for m_ in need) or "Environment" not in w.structs:
+        return ctx.missing(R, "Environment methods")
+
+    class Scoped:
+        def __init__(self):
+            self.blocks = [{}]
+            self.obj = ("O", "var-environment", (("add_variable_block", ("PY", self.push)), ("remove_variable_block", ("PY", self.pop)), ("add_variable", ("PY", self.add)), ("get_variable", ("PY", self.get)),
+                                                 ("get_mut_variable", ("PY", self.get)), ("has_variable", ("PY", lambda k_: self.get(k_) != NONE))))
+
+        def push(self):
+            self.blocks.append({})
+            return ("T", ())
+
+        def pop(self):
+            if len(self.blocks) <= 1:
+                raise Panic("scope closed that was never opened")
+            self.blocks.pop()
+            return ("T", ())
+
+        def add(self, k_, v_):
+            if not isinstance(k_, str):
+                raise Unsupported("version key %r" % (k_,))
+            self.blocks[-1][k_] = v_
+            return ("T", ())
+
+        def get(self, k_):
+            for b_ in reversed(self.blocks):
+                if k_ in b_:
+                    return S("Some", b_[k_])
+            return NONE
+
+    names = {x: ("O", "name:" + x, (("name", x), ("suffix", NONE), ("version", NONE), ("clone", ("PY", (lambda x=x: names[x]))))) for x in "xyz"}
+    programs = [
+        [("next", "x"), ("push",), ("next", "x"), ("cur", "x"), ("pop",), ("cur", "x"), ("range", "x")],
+        [("push",), ("next", "y"), ("pop",), ("cur", "y"), ("range", "y"), ("next", "y"), ("cur", "y")],
+        [("next", "x"), ("push",), ("cur", "x"), ("next", "z"), ("pop",), ("cur", "z"), ("push",), ("next", "z"), ("cur", "z"), ("pop",), ("cur", "z"), ("cur", "x")],
+        [("cur", "x"), ("range", "x"), ("push",), ("push",), ("next", "x"), ("pop",), ("cur", "x"), ("next", "x"), ("cur", "x"), ("pop",), ("cur", "x"), ("range", "x")],
+    ]
+    bad = {}
+    n = 0
+    M = {k_: w.methods[("Environment", k_)][0] for k_ in need}
+    for prog in programs:
+        scoped, glob = Scoped(), Scoped()
+        fields = w.structs["Environment"]
+        env = S("Environment", *[scoped.obj if f_ == "scoped_versions" else (glob.obj if f_ == "global_versions" else O(f_)) for f_ in fields])
+        if "scoped_versions" not in fields or "global_versions" not in fields:
+            return ctx.missing(R, "Environment fields", str(fields))
+        ref_scopes, ref_max = [{}], {}
+        trace = []
+        try:
+            for op in prog:
+                trace.append(" ".join(op))
+                if op[0] == "push":
+                    w.call_fn(M["add_variable_scope"], [env])
+                    ref_scopes.append({})
+                elif op[0] == "pop":
+                    w.call_fn(M["remove_variable_scope"], [env])
+                    ref_scopes.pop()
+                elif op[0] == "next":
+                    got = w.call_fn(M["get_next_version"], [env, names[op[1]]])
+                    want = ref_max.get(op[1], -1) + 1
+                    ref_max[op[1]] = want
+                    ref_scopes[-1][op[1]] = want
+                    n += 1
+                    if got != want:
+                        bad.setdefault("fresh", "after `%s`: the new version of %s is %r, expected %d" % ("; ".join(trace), op[1], got, want))
+                elif op[0] == "cur":
+                    got = w.call_fn(M["get_current_version"], [env, names[op[1]]])
+                    want = NONE
+                    for sc in reversed(ref_scopes):
+                        if op[1] in sc:
+                            want = S("Some", sc[op[1]])
+                            break
+                    n += 1
+                    if got != want:
+                        bad.setdefault("current", "after `%s`: a read of %s sees %s, expected %s" % ("; ".join(trace[:-1]), op[1], "no version" if got == NONE else "version %r" % (got[2][0] if isinstance(got, tuple) and len(got) > 2 else got), "no version" if want == NONE else "version %d" % want[2][0]))
+                elif op[0] == "range":
+                    got = w.call_fn(M["get_version_range"], [env, names[op[1]]])
+                    want = NONE if op[1] not in ref_max else S("Some", ("L", tuple(range(0, ref_max[op[1]] + 1))))
+                    n += 1
+                    if got != want:
+                        bad.setdefault("range", "after `%s`: the versions of %s are %r, expected %r" % ("; ".join(trace[:-1]), op[1], got, want))
+        except Unsupported as u:
+            ctx.note("the SSA environment is outside the evaluator's subset (%s)" % u)
+            return ctx.missing(R, "Environment evaluation", str(u))
+        except Panic as p_:
+            bad.setdefault("current", "after `%s`: panics (%s)" % ("; ".join(trace), p_))
+    ctx.floor(R, "environment queries evaluated", n, 20)
+    ctx.check(R, "Environment/read-sees-the-innermost-live-assignment", "current" not in bad, bad.get("current", "a read sees the version assigned last in the current or an enclosing scope, and nothing from a scope that was left"), SI)
+    ctx.check(R, "Environment/fresh-version-is-new-everywhere", "fresh" not in bad, bad.get("fresh", "one more than every version handed out for the name, in whatever scope"), SI)
+    ctx.check(R, "Environment/version-range-covers-every-version", "range" not in bad, bad.get("range", "0 ..= the largest version handed out"), SI)
+
+
 def run(ctx):
     rule_plumbing(ctx)
     rule_phi_insertion(ctx)
@@ -775,3 +958,4 @@ def run(ctx):
     rule_traversal(ctx)
     rule_keys(ctx)
     rule_declarations(ctx)
+    rule_environment(ctx)
